@@ -183,6 +183,7 @@ pub enum WX {
     Or(&'static str, Box<WX>, Box<WX>),
     Summ(Box<WX>),
     Pass(u8, Box<WX>),
+    Norm(Box<WX>),
 }
 
 impl WX {
@@ -195,12 +196,13 @@ impl WX {
             WX::Or(c, l, r) => format!("OR {c} {} {}", l.show(), r.show()),
             WX::Summ(w) => format!("SUMM {}", w.show()),
             WX::Pass(_, w) => format!("PASS {}", w.show()),
+            WX::Norm(w) => format!("NORM {}", w.show()),
         }
     }
     fn arb(&self) -> bool {
         match self {
             WX::Leaf(_) | WX::Summ(_) => true,
-            WX::Fos(_, w) | WX::Rep(_, w) | WX::Pass(_, w) => w.arb(),
+            WX::Fos(_, w) | WX::Rep(_, w) | WX::Pass(_, w) | WX::Norm(w) => w.arb(),
             WX::Tee(l, r) => l.arb() && r.arb(),
             WX::Or(..) => false,
         }
@@ -209,12 +211,17 @@ impl WX {
         match self {
             WX::Leaf(_) => true,
             WX::Fos(..) | WX::Rep(..) => false,
-            WX::Summ(w) | WX::Pass(_, w) => w.nt(),
+            WX::Summ(w) | WX::Pass(_, w) | WX::Norm(w) => w.nt(),
             WX::Tee(l, r) | WX::Or(_, l, r) => l.nt() && r.nt(),
         }
     }
     fn summarizable(&self) -> bool {
         self.nt() || matches!(self, WX::Rep(..))
+    }
+    pub fn has_norm(&self) -> bool {
+        let mut k = vec![];
+        self.kinds(&mut k);
+        k.contains(&"norm")
     }
     pub fn kinds(&self, out: &mut Vec<&'static str>) {
         match self {
@@ -222,6 +229,7 @@ impl WX {
             WX::Fos(_, w) => { out.push("fos"); w.kinds(out) }
             WX::Rep(_, w) => { out.push("rep"); w.kinds(out) }
             WX::Pass(_, w) => { out.push("pass"); w.kinds(out) }
+            WX::Norm(w) => { out.push("norm"); w.kinds(out) }
             WX::Summ(w) => { out.push("summ"); w.kinds(out) }
             WX::Tee(l, r) => { out.push("tee"); l.kinds(out); r.kinds(out) }
             WX::Or(_, l, r) => { out.push("or"); l.kinds(out); r.kinds(out) }
@@ -233,30 +241,37 @@ impl WX {
 /// (`Repeat` needs a `NonTransforming` inner writer, `Summarize` an
 /// `Arbitrary + Summarizable` one, `Or` has no `Arbitrary`).
 pub fn gen_wx(rng: &mut Rng, depth: usize, next_leaf: &mut usize) -> WX {
+    gen_wx_in(rng, depth, next_leaf, true)
+}
+
+/// `norm_ok`: a `Normalize` may be placed here (not below an `Or`, which would hand it only a part of
+/// the stream and so break the contract `Normalize` panics on).
+fn gen_wx_in(rng: &mut Rng, depth: usize, next_leaf: &mut usize, norm_ok: bool) -> WX {
     if depth == 0 || rng.chance(1, 5) {
         *next_leaf += 1;
         return WX::Leaf(*next_leaf);
     }
     for _ in 0..20 {
-        let c = match rng.below(7) {
-            0 => WX::Fos(*rng.pick(&['d', 'd', 'a', 'n', 'o']), Box::new(gen_wx(rng, depth - 1, next_leaf))),
+        let c = match rng.below(if norm_ok { 9 } else { 7 }) {
+            0 => WX::Fos(*rng.pick(&['d', 'd', 'a', 'n', 'o']), Box::new(gen_wx_in(rng, depth - 1, next_leaf, norm_ok))),
             1 => {
-                let w = gen_wx(rng, depth - 1, next_leaf);
+                let w = gen_wx_in(rng, depth - 1, next_leaf, norm_ok);
                 if !w.nt() { continue; }
                 WX::Rep(*rng.pick(&['s', 'f', 'f', 'a', 'n', 'F']), Box::new(w))
             }
-            2 => WX::Tee(Box::new(gen_wx(rng, depth - 1, next_leaf)), Box::new(gen_wx(rng, depth - 1, next_leaf))),
+            2 => WX::Tee(Box::new(gen_wx_in(rng, depth - 1, next_leaf, norm_ok)), Box::new(gen_wx_in(rng, depth - 1, next_leaf, norm_ok))),
             3 => WX::Or(
                 *rng.pick(&["c0", "c1", "s", "e", "o"]),
-                Box::new(gen_wx(rng, depth - 1, next_leaf)),
-                Box::new(gen_wx(rng, depth - 1, next_leaf)),
+                Box::new(gen_wx_in(rng, depth - 1, next_leaf, false)),
+                Box::new(gen_wx_in(rng, depth - 1, next_leaf, false)),
             ),
             4 | 5 => {
-                let w = gen_wx(rng, depth - 1, next_leaf);
+                let w = gen_wx_in(rng, depth - 1, next_leaf, norm_ok);
                 if !(w.arb() && w.summarizable()) { continue; }
                 WX::Summ(Box::new(w))
             }
-            _ => WX::Pass(rng.below(3) as u8, Box::new(gen_wx(rng, depth - 1, next_leaf))),
+            6 => WX::Pass(rng.below(3) as u8, Box::new(gen_wx_in(rng, depth - 1, next_leaf, norm_ok))),
+            _ => WX::Norm(Box::new(gen_wx_in(rng, depth - 1, next_leaf, norm_ok))),
         };
         return c;
     }
@@ -336,6 +351,11 @@ pub fn build(wx: &WX, log: &Log, cat: &Rc<Cat>) -> DynW {
             DynW(Box::new(WrapNoArb(t, cli::Compose { left: cli::Empty, right: cli::Empty })))
         }
         WX::Summ(w) => boxed_arb(build(w, log, cat).summarized()),
+        WX::Norm(w) => {
+            let inner = build(w, log, cat);
+            let x = inner.normalized::<PW>();
+            if w.arb() { boxed_arb(x) } else { DynW(Box::new(WrapNoArb(x, cli::Empty))) }
+        }
         WX::Pass(k, w) => {
             let inner = build(w, log, cat);
             let arb = w.arb();
@@ -626,7 +646,13 @@ fn gen_case(rng: &mut Rng, canonical: bool, force: Option<fn(&mut Rng, &mut usiz
         None => { let d = rng.range(1, 3); gen_wx(rng, d, &mut nl) }
     };
     let cut = rng.chance(1, 6);
-    let evs = if let Some((_, e)) = dir { e } else if canonical { gen_canonical_stream(rng, &cat, cut) } else { gen_arbitrary_stream(rng, &cat) };
+    let evs = if let Some((_, e)) = dir { e }
+        else if wx.has_norm() {
+            // `Normalize` panics on streams that break its contract: concurrent (interleaved) but contract-abiding
+            let sticky = *rng.pick(&[0usize, 0, 3, 6, 8]);
+            crate::fam_norm::gen_contract_stream(rng, &cat, sticky)
+        }
+        else if canonical { gen_canonical_stream(rng, &cat, cut) } else { gen_arbitrary_stream(rng, &cat) };
     let mut ops: Vec<POp> = vec![];
     for e in evs {
         if wx.arb() && rng.chance(1, 25) { ops.push(POp::Write(rng.below(5))); }
@@ -681,7 +707,7 @@ fn gen_case(rng: &mut Rng, canonical: bool, force: Option<fn(&mut Rng, &mut usiz
     Case {
         req,
         imp,
-        class: format!("{}:{}", if canonical { "canon" } else { "arb" }, if kinds.is_empty() { "leaf".to_owned() } else { kinds.join("+") }),
+        class: format!("{}:{}", if wx.has_norm() { "interleaved" } else if canonical { "canon" } else { "arb" }, if kinds.is_empty() { "leaf".to_owned() } else { kinds.join("+") }),
         nontrivial: !kinds.is_empty() && !ops.is_empty(),
     }
 }
@@ -723,9 +749,20 @@ pub fn gen_verdict(rng: &mut Rng, idx: usize) -> Case {
             let inner = if rng.chance(1, 3) { WX::Rep('f', Box::new(leaf)) } else { leaf };
             WX::Summ(Box::new(inner))
         }
-        let core = match rng.below(4) {
+        // behind / in front of `Normalize`: `summarized().normalized()`, the default
+        // `Summarize<Normalize<_>>`, and a normalized branch of a `Tee`
+        fn summ_n(rng: &mut Rng, nl: &mut usize) -> WX {
+            match rng.below(3) {
+                0 => WX::Norm(Box::new(summ(rng, nl))),
+                1 => { *nl += 1; WX::Summ(Box::new(WX::Norm(Box::new(WX::Leaf(*nl))))) }
+                _ => summ(rng, nl),
+            }
+        }
+        let core = match rng.below(6) {
             0 => WX::Tee(Box::new(summ(rng, nl)), Box::new(summ(rng, nl))),
             1 => WX::Or(*rng.pick(&["c0", "c1"]), Box::new(summ(rng, nl)), Box::new(summ(rng, nl))),
+            2 => WX::Tee(Box::new(summ_n(rng, nl)), Box::new(summ_n(rng, nl))),
+            3 => summ_n(rng, nl),
             _ => summ(rng, nl),
         };
         if rng.chance(1, 3) { WX::Fos('d', Box::new(core)) } else { core }
